@@ -14,8 +14,16 @@ import Mathlib.Tactic.Ring
 import Mathlib.Tactic.Positivity
 import WnVerif.Model.Ic
 import WnVerif.Lemmas.Walk
+import WnVerif.Gen.Misc
+import WnVerif.Gen.Constants
 namespace WnVerif.Props.C15
 open WnVerif.Graph WnVerif.Ic
+
+/-- tie to the source: the parts of speech that carry information content (`IC_PARTS_OF_SPEECH`,
+with the satellite adjective folded into the adjective) are those of `icPos` -/
+theorem C15_gen_ic_parts_of_speech :
+    (∀ p ∈ Gen.ic_parts_of_speech, icPos p = some p) ∧ icPos Gen.pos_adj_sat = some Gen.pos_adj ∧
+    (∀ p ∈ Gen.parts_of_speech, (icPos p).isSome = (Gen.ic_parts_of_speech.contains p || p == Gen.pos_adj_sat)) := by decide
 
 /-- the ancestor walk terminates (on cycles too) and visits exactly `s` and its
 ancestors, each once — "once per word synset however many hypernym paths converge" -/
